@@ -30,6 +30,9 @@ struct E1Config {
     bool editNeighbours = false; // C06: one-edit neighbours must compare unequal
     int statelessDepth = 0;     // additionally enumerate ALL histories to this depth without de-duplication
     size_t replayCap = 100000;  // canon-on-replay for at most this many stored states
+    int silentSuffix = 0;       // >= 2: from every stored state, all op sequences of this length without observers in between
+    size_t silentSuffixStates = 1000000;
+    bool silentReduced = false; // silent-suffix pass uses one value per value-carrying operation kind
 };
 
 template <class G> class Explorer {
@@ -89,6 +92,20 @@ template <class G> class Explorer {
             if (n < cfg.maxN) push(RESIZE, n + 1, 0, 0, false);
         }
         return ops;
+    }
+
+    // Alphabet of the silent-suffix pass: the full one, or (quick tier) one value per value-carrying kind.
+    std::vector<Op> silentAlphabet(unsigned n) const {
+        std::vector<Op> all = alphabet(n), out;
+        if (!cfg.silentReduced) return all;
+        for (auto &op : all) {
+            bool keep = true;
+            if (op.k == ADD || op.k == ADD_RECIP) keep = cfg.addValues.empty() || op.v == cfg.addValues.back();
+            else if (op.k == SET_VALUE) keep = cfg.setValues.empty() || op.v == cfg.setValues.front() || op.v == cfg.setValues.back();
+            else if (op.k == REMOVE_MULTI) keep = op.v == 1;
+            if (keep) out.push_back(op);
+        }
+        return out;
     }
 
     bool withinCaps(const Model &m) const {
@@ -373,16 +390,24 @@ template <class G> class Explorer {
             std::vector<Op> h;
             std::function<void(const G &, const Model &, int, unsigned)> dfs = [&](const G &g, const Model &m, int depth, unsigned start) {
                 ++histories;
-                std::string k = keyOf(g, cfg.completeKey);
-                auto it = index.find(k);
-                for (int variant = 0; variant < 4 && it != index.end() && !(recs[it->second].g == g); ++variant) {
-                    k += "#";
-                    it = index.find(k);
-                }
-                if (it == index.end() || !recs[it->second].m.compatible(m)) {
-                    // only a problem if the stateful search was complete for this region
-                        rep.violation("HARNESS-NONDETERMINISM:" + prop + ":" + cfg.name + ":stateless", "stateless history reaches a state the stateful search did not record (or with another value)",
-                                      replayArgs(start, h));
+                // No observer has been called on `g` or any of its ancestors: observe a COPY, so that the
+                // lineage stays silent for the longer histories that extend this one.
+                {
+                    G probe(g);
+                    ClauseSink sink;
+                    sink.property = prop;
+                    checkState(probe, m, sink);
+                    clauseEvals += sink.evaluated;
+                    if (!sink.failures.empty()) {
+                        for (auto &f : sink.failures)
+                            rep.violation(prop + ":" + cfg.name + ":" + f.first + ":silent-history",
+                                          "after the history [" + historyText(h) + "] executed WITHOUT any observer call in between, on a graph constructed with " + std::to_string(start) + " vertices: " + f.second,
+                                          replayArgs(start, h) + " --silent 1");
+                    }
+                    std::string k = keyOf(probe, cfg.completeKey);
+                    auto it = index.find(k);
+                    if (it == index.end() && sink.failures.empty())
+                        rep.violation("HARNESS-NONDETERMINISM:" + prop + ":" + cfg.name + ":stateless", "a silent history reaches a public-API key the stateful fixpoint search never recorded", replayArgs(start, h));
                 }
                 if (depth == cfg.statelessDepth) return;
                 for (const Op &op : alphabet(m.n)) {
@@ -406,6 +431,54 @@ template <class G> class Explorer {
                 dfs(g, m, 0, n0);
             }
         }
+
+        // silent-suffix pass: from every stored state (on whose lineage every observer has been called
+        // after every step) apply K operations WITHOUT observing in between, then observe everything.
+        // This is what exposes a cache that is filled by an observer and not invalidated by a mutator.
+        unsigned long long silentRuns = 0;
+        if (cfg.silentSuffix >= 2) {
+            size_t lim = std::min(recs.size(), cfg.silentSuffixStates);
+            if (recs.size() > lim) rep.cap(cfg.name + ": silent-suffix pass limited to the first " + std::to_string(lim) + " states (BFS order)");
+            std::vector<Op> suffix;
+            std::function<void(const G &, const Model &, int, size_t)> go = [&](const G &g, const Model &m, int k, size_t s) {
+                for (const Op &op : silentAlphabet(m.n)) {
+                    Model m2(m);
+                    applyModel(m2, op, T::fam);
+                    if (!withinCaps(m2)) continue;
+                    G g2(g);
+                    applyReal(g2, op);
+                    suffix.push_back(op);
+                    if (k + 1 >= 2) { // length-1 suffixes are what the search itself checks
+                        ++silentRuns;
+                        ClauseSink sink;
+                        sink.property = prop;
+                        G probe(g2);
+                        checkState(probe, m2, sink);
+                        clauseEvals += sink.evaluated;
+                        if (!sink.failures.empty()) {
+                            unsigned start;
+                            auto h = historyOf((int)s, &start);
+                            std::string pre = historyText(h);
+                            size_t observedLen = h.size();
+                            for (auto &o : suffix) h.push_back(o);
+                            for (auto &f : sink.failures)
+                                rep.violation(prop + ":" + cfg.name + ":" + f.first + ":silent-suffix",
+                                              "all observers called after each of [" + pre + "], then [" + historyText(suffix) + "] executed without observer calls, on a graph constructed with " +
+                                                  std::to_string(start) + " vertices: " + f.second,
+                                              replayArgs(start, h) + " --observed-prefix " + std::to_string(observedLen));
+                        }
+                    }
+                    if (k + 1 < cfg.silentSuffix) go(g2, m2, k + 1, s);
+                    suffix.pop_back();
+                }
+            };
+            for (size_t s = 0; s < lim; ++s) {
+                if (clock_().expired()) { rep.cap(cfg.name + ": deadline reached during the silent-suffix pass at state " + std::to_string(s)); break; }
+                breadcrumb(cfg.name + " silent-suffix from state#" + std::to_string(s));
+                go(recs[s].g, recs[s].m, 0, s);
+            }
+        }
+        rep.count("silent_suffix_runs", (long long)silentRuns);
 
         // history-dependent states: concrete key differs from the canonical fresh-built graph
         unsigned long long histDep = 0;
@@ -458,6 +531,32 @@ template <class G> int replayHistory(const E1Config &cfg, const std::string &pro
     std::string enc = args.get("ops", "-");
     auto h = decodeOps(enc == "-" ? "" : enc);
     printf("replaying on %s (property %s), graph constructed with %u vertices\n", cfg.name.c_str(), prop.c_str(), start);
+    if (args.has("silent") || args.has("observed-prefix")) {
+        // observers are called after each of the first `observed-prefix` steps only, then at the end
+        size_t observed = args.has("silent") ? 0 : (size_t)args.getInt("observed-prefix", 0);
+        int verdict[2];
+        for (int round = 0; round < 2; ++round) {
+            G g(start);
+            Model m;
+            m.directed = Tr<G>::directed;
+            m.n = start;
+            ClauseSink sink;
+            sink.property = prop;
+            if (observed > 0 || h.empty()) { ClauseSink warm; checkState(g, m, warm); }
+            for (size_t k = 0; k < h.size(); ++k) {
+                applyModel(m, h[k], Tr<G>::fam);
+                Outcome oc = applyReal(g, h[k]);
+                if (round == 0) printf("  step %zu: %s -> %s%s\n", k + 1, opText<G>(h[k]).c_str(), outcomeName(oc), k + 1 <= observed ? "  [all observers called]" : "");
+                if (k + 1 <= observed) { ClauseSink warm; checkState(g, m, warm); }
+            }
+            checkState(g, m, sink);
+            if (round == 0)
+                for (auto &f : sink.failures) printf("REPRODUCED clause %s: %s\n", f.first.c_str(), f.second.c_str());
+            verdict[round] = sink.failures.empty() ? 0 : 1;
+        }
+        if (verdict[0] != verdict[1]) { printf("REPLAY DIVERGED\n"); return 2; }
+        return verdict[0];
+    }
     auto f1 = ex.reproduce(start, h, true);
     auto f2 = ex.reproduce(start, h, false);
     if (f1 != f2) {
